@@ -61,14 +61,30 @@ pub enum Shape {
     Cycle5,
     Dense5,
     TwoScc6,
+    /// order 8: 64 cells, the bit matrix ends exactly on a word boundary; the last vertex is a sink
+    Path8,
     /// AdjacencyMap only: V = {0, 2, 9}, arcs 0->2, 2->9, 9->0
     MapGap,
     /// AdjacencyMap only: V = {0, 1, 7}, arcs 0->7, 7->1 (a successor id >= order)
     MapHigh,
+    /// AdjacencyMap only: V = {0, 1, 70}, arcs 70->0, 0->1 (a *tail* far beyond the order, heads in range)
+    MapTail,
+    /// AdjacencyMap only: V = {0, 1, 2^40}, arcs 0->2^40, 2^40->1 (an id that no vector may be sized by)
+    MapFar,
 }
 
-pub const SHAPES: [Shape; 7] =
-    [Shape::Trivial, Shape::Path4, Shape::Cycle5, Shape::Dense5, Shape::TwoScc6, Shape::MapGap, Shape::MapHigh];
+pub const SHAPES: [Shape; 10] = [
+    Shape::Trivial,
+    Shape::Path4,
+    Shape::Cycle5,
+    Shape::Dense5,
+    Shape::TwoScc6,
+    Shape::Path8,
+    Shape::MapGap,
+    Shape::MapHigh,
+    Shape::MapTail,
+    Shape::MapFar,
+];
 
 impl Shape {
     pub fn tag(self) -> &'static str {
@@ -78,11 +94,22 @@ impl Shape {
             Shape::Cycle5 => "cycle5",
             Shape::Dense5 => "dense5",
             Shape::TwoScc6 => "twoscc6",
+            Shape::Path8 => "path8",
             Shape::MapGap => "mapgap",
             Shape::MapHigh => "maphigh",
+            Shape::MapTail => "maptail",
+            Shape::MapFar => "mapfar",
         }
     }
-    pub fn dg(self) -> Dg {
+    /// The model digraph of the shape: built once, handed out by reference (cloning ordered sets is as
+    /// slow under Miri as building them).
+    pub fn dg(self) -> &'static Dg {
+        static ALL: std::sync::OnceLock<Vec<Dg>> = std::sync::OnceLock::new();
+        let all = ALL.get_or_init(|| SHAPES.iter().map(|s| s.build_dg()).collect());
+        &all[SHAPES.iter().position(|s| *s == self).unwrap()]
+    }
+
+    fn build_dg(self) -> Dg {
         match self {
             Shape::Trivial => Dg::empty(1),
             Shape::Path4 => Dg::path(4),
@@ -94,12 +121,15 @@ impl Shape {
                 d
             }
             Shape::TwoScc6 => Dg::from_arcs(6, [(0, 1), (1, 2), (2, 0), (3, 4), (4, 5), (5, 3), (2, 3), (0, 4)]),
+            Shape::Path8 => Dg::path(8),
             Shape::MapGap => Dg::from_parts([0, 2, 9], [(0, 2), (2, 9), (9, 0)]),
             Shape::MapHigh => Dg::from_parts([0, 1, 7], [(0, 7), (7, 1)]),
+            Shape::MapTail => Dg::from_parts([0, 1, 70], [(70, 0), (0, 1)]),
+            Shape::MapFar => Dg::from_parts([0, 1, 1 << 40], [(0, 1 << 40), (1 << 40, 1)]),
         }
     }
     pub fn contiguous(self) -> bool {
-        !matches!(self, Shape::MapGap | Shape::MapHigh)
+        !matches!(self, Shape::MapGap | Shape::MapHigh | Shape::MapTail | Shape::MapFar)
     }
 }
 
@@ -318,7 +348,9 @@ pub fn catalogue() -> Vec<Prog> {
             let shapes: Vec<Shape> = if en.args == Args::Gen || matches!(en.name, "empty_huge" | "distance_matrix_huge" | "prng") {
                 vec![Shape::Trivial]
             } else {
-                SHAPES.iter().copied().filter(|s| s.contiguous() || repr == M).collect()
+                // non-contiguous shapes exist only as AdjacencyMap values: for the map itself, and as the
+                // *source* of a conversion out of a map
+                SHAPES.iter().copied().filter(|s| s.contiguous() || repr == M || en.name == "from_map").collect()
             };
             for shape in shapes {
                 let xs: &[Id] = match en.args {
@@ -361,28 +393,99 @@ pub fn is_safe_subset(p: &Prog) -> bool {
 }
 
 pub fn find(name: &str) -> Option<Prog> {
-    let parts: Vec<&str> = name.split('/').collect();
-    if parts.len() != 7 {
-        return None;
+    // hand-rolled: iterator adaptors and collect() are slow under Miri
+    let (e, rest) = name.split_once('/')?;
+    let (r, rest) = rest.split_once('/')?;
+    let (sh, rest) = rest.split_once('/')?;
+    let (xs, rest) = rest.split_once('/')?;
+    let (ys, rest) = rest.split_once('/')?;
+    let (cbs, ts) = rest.split_once('/')?;
+    let mut entry = None;
+    for en in ENTRIES {
+        if en.name == e {
+            entry = Some(en.name);
+            break;
+        }
     }
-    let entry = ENTRIES.iter().find(|e| e.name == parts[0])?.name;
-    let repr = *[L, M, X, E, WI, WU].iter().find(|r| r.tag() == parts[1])?;
-    let shape = *SHAPES.iter().find(|s| s.tag() == parts[2])?;
-    let x = *IDS.iter().find(|i| i.tag() == parts[3])?;
-    let y = *IDS.iter().find(|i| i.tag() == parts[4])?;
-    let cb: u8 = parts[5].strip_prefix("cb")?.parse().ok()?;
-    let t: u8 = parts[6].strip_prefix('t')?.parse().ok()?;
-    Some(Prog { entry, repr, shape, x, y, cb, t })
+    let repr = match r {
+        "L" => L,
+        "M" => M,
+        "X" => X,
+        "E" => E,
+        "WI" => WI,
+        "WU" => WU,
+        _ => return None,
+    };
+    let mut shape = None;
+    for s in SHAPES {
+        if s.tag() == sh {
+            shape = Some(s);
+            break;
+        }
+    }
+    let id = |t: &str| -> Option<Id> {
+        Some(match t {
+            "in0" => Id::In0,
+            "inlast" => Id::InLast,
+            "order" => Id::Order,
+            "order+1" => Id::OrderP1,
+            "far" => Id::Far,
+            "max" => Id::Max,
+            _ => return None,
+        })
+    };
+    let digit = |t: &str, prefix: &str| -> Option<u8> {
+        let d = t.strip_prefix(prefix)?.as_bytes();
+        if d.len() == 1 && d[0].is_ascii_digit() {
+            Some(d[0] - b'0')
+        } else {
+            None
+        }
+    };
+    Some(Prog { entry: entry?, repr, shape: shape?, x: id(xs)?, y: id(ys)?, cb: digit(cbs, "cb")?, t: digit(ts, "t")? })
 }
 
 // ------------------------------------------------------------------ builders
 
 mod mk {
     use super::*;
-    pub fn L(d: &Dg) -> AdjacencyList {
+    use std::sync::{Mutex, PoisonError};
+
+    /// Built values are cached per model digraph and handed out as clones: a clone copies tree nodes,
+    /// building inserts element by element through the public API, which is what takes the time under
+    /// Miri. The cache lives in statics, so it is neither a leak for Miri nor (after the warm-up
+    /// execution) a change of the ledger's balance.
+    macro_rules! cached {
+        ($name:ident, $build:ident, $T:ty) => {
+            pub fn $name(d: &Dg) -> $T {
+                // keyed by the address of the shape's static model digraph; other digraphs are built afresh
+                static CACHE: Mutex<Vec<(usize, $T)>> = Mutex::new(Vec::new());
+                let key = std::ptr::from_ref(d) as usize;
+                let is_shape = SHAPES.iter().any(|s| std::ptr::eq(s.dg(), d));
+                if !is_shape {
+                    return $build(d);
+                }
+                let mut c = CACHE.lock().unwrap_or_else(PoisonError::into_inner);
+                if let Some((_, g)) = c.iter().find(|(k, _)| *k == key) {
+                    return g.clone();
+                }
+                let g = $build(d);
+                c.push((key, g.clone()));
+                g
+            }
+        };
+    }
+    cached!(L, build_L, AdjacencyList);
+    cached!(M, build_M, AdjacencyMap);
+    cached!(X, build_X, AdjacencyMatrix);
+    cached!(E, build_E, EdgeList);
+    cached!(WI, build_WI, AdjacencyListWeighted<isize>);
+    cached!(WU, build_WU, AdjacencyListWeighted<usize>);
+
+    fn build_L(d: &Dg) -> AdjacencyList {
         AdjacencyList::from(d.rows())
     }
-    pub fn M(d: &Dg) -> AdjacencyMap {
+    fn build_M(d: &Dg) -> AdjacencyMap {
         if d.is_contiguous() {
             let mut m = AdjacencyMap::empty(d.order());
             for &(u, v) in &d.a {
@@ -406,28 +509,28 @@ mod mk {
             m.filter_vertices(|x| x != 0)
         }
     }
-    pub fn X(d: &Dg) -> AdjacencyMatrix {
+    fn build_X(d: &Dg) -> AdjacencyMatrix {
         let mut m = AdjacencyMatrix::empty(d.order());
         for &(u, v) in &d.a {
             m.add_arc(u, v);
         }
         m
     }
-    pub fn E(d: &Dg) -> EdgeList {
+    fn build_E(d: &Dg) -> EdgeList {
         let mut m = EdgeList::empty(d.order());
         for &(u, v) in &d.a {
             m.add_arc(u, v);
         }
         m
     }
-    pub fn WI(d: &Dg) -> AdjacencyListWeighted<isize> {
+    fn build_WI(d: &Dg) -> AdjacencyListWeighted<isize> {
         let mut m = AdjacencyListWeighted::<isize>::empty(d.order());
         for &(u, v) in &d.a {
             m.add_arc_weighted(u, v, 1 + ((u * 3 + v) % 7) as isize);
         }
         m
     }
-    pub fn WU(d: &Dg) -> AdjacencyListWeighted<usize> {
+    fn build_WU(d: &Dg) -> AdjacencyListWeighted<usize> {
         let mut m = AdjacencyListWeighted::<usize>::empty(d.order());
         for &(u, v) in &d.a {
             m.add_arc_weighted(u, v, 1 + (u * 3 + v) % 7);
@@ -500,7 +603,7 @@ fn set_cpus(t: u8) {
 /// Execute the program body (may panic: the documented reaction to bad
 /// arguments). Returns a small summary value so nothing is optimised away.
 pub fn body(p: &Prog) -> u64 {
-    let d = &p.shape.dg();
+    let d = p.shape.dg();
     let x = p.x.of(d);
     let y = p.y.of(d);
     let cb = p.cb;
